@@ -83,7 +83,11 @@ func verifIpkPayload(o scen.Options) {
 			v.Assert(e.Uname == w.Owner && e.Gname == w.Group, "ipk-file-owner-group")
 		case 'd', 'i':
 			v.Assert(e.Name == name+"/" && e.Type == '5', "ipk-dir-name-type")
-			v.Assert(e.Mode == scen.UnixMode(w.Mode), "ipk-dir-mode")
+			if w.FromTree {
+				v.Assert(e.Mode == scen.UnixMode(w.Mode), "ipk-dir-mode-of-tree-directory")
+			} else {
+				v.Assert(e.Mode == scen.UnixMode(w.Mode), "ipk-dir-mode")
+			}
 			v.Assert(e.Uname == w.Owner && e.Gname == w.Group, "ipk-dir-owner-group")
 		case 'l':
 			v.Assert(e.Name == name && e.Type == '2', "ipk-symlink-name-type")
@@ -91,3 +95,6 @@ func verifIpkPayload(o scen.Options) {
 		}
 	}
 }
+
+// Verif_C01_C_IpkSources_Thorough: a tree, a directory source expanded by the glob model, an on-disk symlink.
+func Verif_C01_C_IpkSources_Thorough() { verifIpkPayload(scen.Options{Second: -4}) }
